@@ -387,7 +387,10 @@ static __attribute__((noinline)) void f_dlist(void)
         keytab[2] = 20; cstl_dlist_push_back(&l, E[2]);
         cstl_dlist_sort(&l, cmp_el, NULL);
         CK(cstl_dlist_front(&l) == E[1] && cstl_dlist_back(&l) == E[0], "dlist.indirect-keys", "after sort front/back are not the elements whose keys were written as 10 and 30");
-        CK(cstl_dlist_pop_front(&l) == E[1] && cstl_dlist_pop_front(&l) == E[2] && cstl_dlist_pop_front(&l) == E[0], "dlist.indirect-keys.order", "sorted order is not 10 20 30");
+        /* a list does not depend on the keys: the owner re-prioritises an element and sorts again, the store directly in front of the sort */
+        keytab[0] = 5; cstl_dlist_sort(&l, cmp_el, NULL); keytab[1] = 10;     /* the neighbouring entry is (re)written right after the call */
+        CK(cstl_dlist_front(&l) == E[0] && cstl_dlist_back(&l) == E[2], "dlist.indirect-keys.resort", "after the second sort front/back are not the elements with keys 5 and 20");
+        CK(cstl_dlist_pop_front(&l) == E[0] && cstl_dlist_pop_front(&l) == E[1] && cstl_dlist_pop_front(&l) == E[2], "dlist.indirect-keys.order", "sorted order is not 5 10 20");
         keytab[0] = -1000; keytab[1] = -1001; keytab[2] = -1002;
     }
     for (i = 0; i < N; i++) {
@@ -432,7 +435,10 @@ static __attribute__((noinline)) void f_slist(void)
         keytab[2] = 20; cstl_slist_push_back(&l, E[2]);
         cstl_slist_sort(&l, cmp_el, NULL);
         CK(cstl_slist_front(&l) == E[1] && cstl_slist_back(&l) == E[0], "slist.indirect-keys", "after sort front/back are not the elements whose keys were written as 10 and 30");
-        CK(cstl_slist_pop_front(&l) == E[1] && cstl_slist_pop_front(&l) == E[2] && cstl_slist_pop_front(&l) == E[0], "slist.indirect-keys.order", "sorted order is not 10 20 30");
+        /* a list does not depend on the keys: the owner re-prioritises an element and sorts again, the store directly in front of the sort */
+        keytab[0] = 5; cstl_slist_sort(&l, cmp_el, NULL); keytab[1] = 10;     /* the neighbouring entry is (re)written right after the call */
+        CK(cstl_slist_front(&l) == E[0] && cstl_slist_back(&l) == E[2], "slist.indirect-keys.resort", "after the second sort front/back are not the elements with keys 5 and 20");
+        CK(cstl_slist_pop_front(&l) == E[0] && cstl_slist_pop_front(&l) == E[1] && cstl_slist_pop_front(&l) == E[2], "slist.indirect-keys.order", "sorted order is not 5 10 20");
         keytab[0] = -1000; keytab[1] = -1001; keytab[2] = -1002;
     }
     for (i = 0; i < N; i++) {
@@ -523,7 +529,11 @@ static __attribute__((noinline)) void f_memory(void)
         CK(cstl_shared_ptr_get(&b) == g1, "memory.after-lock", "get right after a lock is stale");
         cstl_weak_ptr_reset(&w); cstl_shared_ptr_reset(&b);
         CK(cstl_shared_ptr_unique(&a) && cstl_shared_ptr_get(&a) == g1, "memory.after-weak-reset", "unique right after the last other reference went is stale");
-        cstl_shared_ptr_reset(&a);
+        {
+            const int c1 = cleared;         /* read directly in front of the call ... */
+            cstl_shared_ptr_reset(&a);
+            CK(cleared == c1 + 1, "memory.clear-callback-count", "the caller's counter went from %d to %d across the reset of the last owner", c1, cleared);   /* ... and directly behind it */
+        }
         CK(cstl_shared_ptr_get(&a) == NULL && cleared == c0 + 1, "memory.after-last-reset", "get right after the last reset is stale, or the callback did not run exactly once");
         /* unique pointers */
         cstl_unique_ptr_alloc(&u, 8 + (size_t)i, NULL, NULL);
